@@ -99,6 +99,15 @@ func ZZH_C03_verify_proof() {
 	}
 	ibtp := &pb.IBTP{From: from, To: to, Index: 1, Type: typ, Proof: commits[ck]}
 	tx := &pb.BxhTransaction{IBTP: ibtp, Extra: proof, TransactionHash: types.NewHashByStr("0x1111111111111111111111111111111111111111111111111111111111111111")}
+	// the pool is long-lived: optionally another IBTP of the same chain with the same proof
+	// bytes was verified (and accepted by the rule) earlier
+	if zz.Choice("earlierIBTP", 2) == 1 {
+		savedOK, savedFail := ve.ok, ve.fail
+		ve.ok, ve.fail = true, false
+		earlier := &pb.IBTP{From: from, To: to, Index: 7, Type: typ, Proof: commits[ck], Payload: []byte("other payload")}
+		_, _, _ = pl.CheckProof(&pb.BxhTransaction{IBTP: earlier, Extra: proof, TransactionHash: types.NewHashByStr("0x2222222222222222222222222222222222222222222222222222222222222222")})
+		ve.ok, ve.fail, ve.calls, ve.address, ve.from = savedOK, savedFail, 0, "", ""
+	}
 	ok, _, err := pl.CheckProof(tx)
 	zz.Cover("C03.proof.accepted", ok)
 	zz.Cover("C03.proof.rejected", !ok)
